@@ -9,6 +9,7 @@ in the subset, e.g. `chr_byte`).
 """
 import ast
 import itertools
+_ITERTOOLS_PURE = ("chain", "accumulate", "islice", "zip_longest", "product", "takewhile", "dropwhile", "starmap", "pairwise")
 
 from .report import AnalysisError
 
@@ -258,8 +259,8 @@ class Folder:
                         env[local] = ModRef(a.name) if a.name in self.src.modules else Opaque("module curtsies.%s" % a.name)
                     elif st.module == "functools" and a.name == "partial":
                         env[local] = _PARTIAL
-                    elif st.module == "itertools" and a.name == "chain":
-                        env[local] = itertools.chain
+                    elif st.module == "itertools" and a.name in _ITERTOOLS_PURE:
+                        env[local] = getattr(itertools, a.name)
                     else:
                         env[local] = Opaque("import %s.%s" % (st.module, a.name))
             elif isinstance(st, ast.Import):
@@ -368,8 +369,8 @@ class Folder:
         return list(v)
 
     def v_attr(self, v, attr):
-        if v is itertools and attr == "chain":
-            return itertools.chain
+        if v is itertools and attr in _ITERTOOLS_PURE:
+            return getattr(itertools, attr)
         if isinstance(v, _PureModule):
             if attr in v.funcs:
                 return v.funcs[attr]
